@@ -70,8 +70,61 @@ def check_dispatch(ctx):
         ctx.violate(R, rf, "random reader draws with Generator.choice", "found %d choice() calls" % len(ch), key="choice")
 
 
+def _columnise(fn):
+    """`for col, name in zip(B.T, columns): col[:] = X / col op= X`  ->  `for __i, name in enumerate(columns): B[:, __i] = X / B[:, __i] op= X`
+    (B is a 2-D array allocated in the function: iterating B.T yields views of its columns).  Works on a clone; returns the function to analyse."""
+    two_d = set()
+    for s_ in A.walk_local(fn):
+        if isinstance(s_, ast.Assign) and isinstance(s_.targets[0], ast.Name) and isinstance(s_.value, ast.Call) and A.call_name(s_.value) in ("np.zeros", "np.empty", "np.full", "np.ones") \
+                and s_.value.args and isinstance(s_.value.args[0], ast.Tuple) and len(s_.value.args[0].elts) == 2:
+            two_d.add(s_.targets[0].id)
+    hits = [l for l in A.walk_local(fn) if isinstance(l, ast.For) and isinstance(l.iter, ast.Call) and A.call_name(l.iter) == "zip" and len(l.iter.args) == 2
+            and isinstance(l.iter.args[0], ast.Attribute) and l.iter.args[0].attr == "T" and isinstance(l.iter.args[0].value, ast.Name) and l.iter.args[0].value.id in two_d
+            and isinstance(l.target, ast.Tuple) and len(l.target.elts) == 2 and all(isinstance(e, ast.Name) for e in l.target.elts)]
+    if not hits:
+        return fn
+    new = A.clone(fn)
+    from ..inline import _relink
+    _relink(new, getattr(fn, "_parent", None), getattr(fn, "_module", None))
+    new._qualname = A.qualname(fn)
+    k = 0
+    for l in [x for x in A.walk_local(new) if isinstance(x, ast.For)]:
+        if not (isinstance(l.iter, ast.Call) and A.call_name(l.iter) == "zip" and len(l.iter.args) == 2 and isinstance(l.iter.args[0], ast.Attribute) and l.iter.args[0].attr == "T"
+                and isinstance(l.iter.args[0].value, ast.Name) and l.iter.args[0].value.id in two_d and isinstance(l.target, ast.Tuple) and len(l.target.elts) == 2):
+            continue
+        B = l.iter.args[0].value.id
+        v, n = l.target.elts[0].id, l.target.elts[1].id
+        k += 1
+        iv = "__i%d" % k
+
+        def col(ctx_):
+            return ast.Subscript(value=ast.Name(id=B, ctx=ast.Load()), slice=ast.Tuple(elts=[ast.Slice(), ast.Name(id=iv, ctx=ast.Load())], ctx=ast.Load()), ctx=ctx_)
+
+        class T(ast.NodeTransformer):
+            def visit_Subscript(self, x):
+                self.generic_visit(x)
+                # col[:] -> B[:, i]
+                if isinstance(x.value, ast.Subscript) and getattr(x.value, "_was_col", False) and isinstance(x.slice, ast.Slice) and x.slice.lower is None and x.slice.upper is None and x.slice.step is None:
+                    y = col(x.ctx)
+                    return ast.copy_location(y, x)
+                return x
+
+            def visit_Name(self, x):
+                if x.id == v:
+                    y = col(x.ctx if isinstance(x.ctx, ast.Store) else ast.Load())
+                    y._was_col = True
+                    return ast.copy_location(y, x)
+                return x
+        l.body = [T().visit(b) for b in l.body]
+        l.target = ast.Tuple(elts=[ast.Name(id=iv, ctx=ast.Store()), ast.Name(id=n, ctx=ast.Store())], ctx=ast.Store())
+        l.iter = ast.Call(func=ast.Name(id="enumerate", ctx=ast.Load()), args=[l.iter.args[1]], keywords=[])
+    ast.fix_missing_locations(new)
+    _relink(new, getattr(fn, "_parent", None), getattr(fn, "_module", None))
+    return new
+
+
 def _reader_checks(ctx, R, q, kind):
-    fn = ctx.prog.func(UT, q, R)
+    fn = _columnise(ctx.prog.func(UT, q, R))
     flow = A.Flow(fn)
     loops = [l for l in A.walk_local(fn) if isinstance(l, ast.For)]
     read_loop = conv_loop = None
@@ -176,8 +229,19 @@ def check_col(ctx):
     _reader_checks(ctx, R, "read_batch_idx", "idx")
     # header parser
     fn = ctx.prog.func(UT, "table_header_to_units", R)
-    st = [s for s in A.walk_local(fn) if isinstance(s, ast.Assign) and isinstance(s.targets[0], ast.Subscript) and canon(s.targets[0].value) == "units"]
-    ok = len(st) == 1 and canon(st[0].targets[0].slice) == canon(parse("row['name']")) and canon(st[0].value) == canon(parse("u.Unit(row.get('unit', u.one))"))
+    st = [s for s in A.walk_local(fn) if isinstance(s, ast.Assign) and isinstance(s.targets[0], ast.Subscript) and isinstance(s.targets[0].value, ast.Name)]
+    comps = [n for n in A.walk_local(fn) if isinstance(n, ast.DictComp) and len(n.generators) == 1 and not n.generators[0].ifs and isinstance(n.generators[0].target, ast.Name)]
+    ok = False
+    if len(st) == 1 and not comps:
+        lp = A.enclosing(st[0], (ast.For,))
+        rv = lp.target.id if lp is not None and isinstance(lp.target, ast.Name) else "row"
+        ok = canon(st[0].targets[0].slice) == canon(parse("%s['name']" % rv)) and canon(st[0].value) == canon(parse("u.Unit(%s.get('unit', u.one))" % rv)) \
+            and lp is not None and canon(A.inline_temporaries(lp.iter, lp, fn)).endswith("['datatype']")
+    elif len(comps) == 1 and not st:
+        rv = comps[0].generators[0].target.id
+        ok = canon(comps[0].key) == canon(parse("%s['name']" % rv)) and canon(comps[0].value) == canon(parse("u.Unit(%s.get('unit', u.one))" % rv)) \
+            and canon(A.inline_temporaries(comps[0].generators[0].iter, A.enclosing_stmt(comps[0]), fn)).endswith("['datatype']")
+        st = [A.enclosing_stmt(comps[0])]
     ctx.check(R, fn, "header parser maps column name -> its own unit (default dimensionless)", ok, "units[...] store is `%s`" % (A.unparse(st[0]) if st else None), key="header")
     # no memoisation on the read path
     for q in ("read_batch", "read_batch_slice", "read_batch_idx", "read_random_batch", "table_header_to_units"):
@@ -237,7 +301,7 @@ def check_refuse(ctx):
                   "the recursive call does not forward metadata_conflicts and the default is %s: appends by file name silently accept conflicting metadata" % (A.unparse(default) if default is not None else None), key="policy-recursion")
     wf = ctx.prog.func(SM, "JokerSamples.write", R)
     wc = A.find_calls(wf, "write_table_hdf5")
-    okp = len(wc) == 1 and A.str_const(A.get_arg(wc[0], None, "metadata_conflicts") or ast.Constant(value=None)) == "error"
+    okp = len(wc) == 1 and A.str_const(A.get_arg(wc[0], None, "metadata_conflicts", with_default=True) or ast.Constant(value=None)) == "error"
     ctx.check(R, wf, "JokerSamples.write requests metadata_conflicts='error'", okp, "write_table_hdf5 is called without metadata_conflicts='error'", key="policy-write")
     # (b) dtype comparison tested and raising, dominating
     cmp_ifs = [s for s in A.walk_local(fn) if isinstance(s, ast.If) and any(A.call_name(c) == "_custom_tbl_dtype_compare" for c in A.calls_in(s.test))]
